@@ -15,7 +15,7 @@ def run_mc(wd, tier):
     copy_specs(wd, ["AwaitCache.tla", "AwaitCacheMC.tla"])
     cfg = os.path.join(wd, "mc.cfg")
     const = {"Hash": '{"h1","h2","h3"}', "Addr": '{"A","B"}', "Iss": "<- MCIss", "Rcv": "<- MCRcv",
-             "Slots": "{1,2}" if tier == "quick" else "{1,2,3}", "MaxOps": "4" if tier == "quick" else "5"}
+             "Slots": "{1,2}" if tier == "quick" else "{1,2,3}", "MaxOps": "4" if tier == "quick" else "5", "ExpiryOn": "TRUE"}
     const.update(CODE_MODEL)
     write_cfg(cfg, "Spec", const, ["TypeOK", "C17_ListsExact"], ["C17_OnlyReceiverRemoves"], view="View")
     p = subprocess.run(["java", "-XX:+UseParallelGC", "-cp", TLC_CP, "tlc2.TLC", "-workers", str(max(2, NCPU // 2)), "-metadir",
@@ -55,7 +55,7 @@ def check(prop, tier):
         os.makedirs(d)
         copy_specs(d, ["AwaitCache.tla", "AwaitCacheTrace.tla"])
         open(os.path.join(d, "trace.ndjson"), "w").writelines(lines)
-        const = {"Hash": "<- THash", "Addr": "<- TAddr", "Iss": "<- TIss", "Rcv": "<- TRcv", "Slots": "{1}", "MaxOps": "0",
+        const = {"Hash": "<- THash", "Addr": "<- TAddr", "Iss": "<- TIss", "Rcv": "<- TRcv", "Slots": "{1}", "MaxOps": "0", "ExpiryOn": "FALSE",
                  "TraceFile": '"trace.ndjson"'}
         const.update(CODE_MODEL)
         write_cfg(os.path.join(d, "t.cfg"), "TSpec", const, ["C17_ListsExact", "C17_EntriesAsExpected", "C17_CallsConform"],
